@@ -110,34 +110,39 @@ def takeArgs : List Str → Res (List Str × List Str)
         (takeArgs ws).bind fun (a, r) => .ok (w :: a, r)
       else .ok ([], w :: ws)
 
+/-- key may be preceded by negation: `if words[0] == "!" { … words = words[1:]; if len(words) == 0 { Abort } }`,
+then `key := words[0]; words = words[1:]`. -/
+def negKey (line : Str) (w : Str) (ws : List Str) : Res (Str × Str × List Str) :=
+  if w = lit "!" then
+    match ws with
+    | [] => .diag (lit "Unexpected trailing '!' in line\n " ++ line)
+    | k :: ws' => .ok (lit "!", k, ws')
+  else .ok ([], w, ws)
+
+/-- first argument may be preceded by negation:
+`if len(words) >= 2 && words[0] == "!" && words[1][0] != '-'`. -/
+def negArg (neg : Str) (ws1 : List Str) : Res (Str × List Str) :=
+  match ws1 with
+  | a :: b :: more =>
+    if a = lit "!" then
+      (firstChar "words[1][0]" b).bind fun c =>
+        if c ≠ '-' then .ok (lit "!", b :: more) else .ok (neg, ws1)
+    else .ok (neg, ws1)
+  | _ => .ok (neg, ws1)
+
+def mkPair (key neg2 : Str) (args : List Str) : Str × Str :=
+  let v := neg2 ++ join args
+  if key = lit "--tcp-flags" ∧ v = lit "!FIN,SYN,RST,ACK SYN" then (lit "--syn", lit "!") else (key, v)
+
 /-- the `for len(words) > 0` loop over the options of one rule. -/
 def parsePairs (line : Str) : Nat → List Str → Res (List (Str × Str))
   | _, [] => .ok []
   | 0, _ :: _ => .panic (.explicit "out of fuel: loop over words does not terminate")
   | fuel + 1, w :: ws =>
-    -- key may be preceded by negation
-    let r : Res (Str × Str × List Str) :=
-      if w = lit "!" then
-        match ws with
-        | [] => .diag (lit "Unexpected trailing '!' in line\n " ++ line)
-        | k :: ws' => .ok (lit "!", k, ws')
-      else .ok ([], w, ws)
-    r.bind fun (neg, key, ws1) =>
-      -- first argument may be preceded by negation
-      let r2 : Res (Str × List Str) :=
-        match ws1 with
-        | a :: b :: more =>
-          if a = lit "!" then
-            (firstChar "words[1][0]" b).bind fun c =>
-              if c ≠ '-' then .ok (lit "!", b :: more) else .ok (neg, ws1)
-          else .ok (neg, ws1)
-        | _ => .ok (neg, ws1)
-      r2.bind fun (neg2, ws2) =>
-        (takeArgs ws2).bind fun (args, ws3) =>
-          let v := neg2 ++ join args
-          let (key', v') :=
-            if key = lit "--tcp-flags" ∧ v = lit "!FIN,SYN,RST,ACK SYN" then (lit "--syn", lit "!") else (key, v)
-          (parsePairs line fuel ws3).bind fun ps => .ok ((key', v') :: ps)
+    (negKey line w ws).bind fun r1 =>
+      (negArg r1.1 r1.2.2).bind fun r2 =>
+        (takeArgs r2.2).bind fun r3 =>
+          (parsePairs line fuel r3.2).bind fun ps => .ok (mkPair r1.2.1 r2.1 r3.1 :: ps)
 
 structure IptSt where
   tables : List Table         -- most recent first
